@@ -69,6 +69,15 @@ EntropyCountBig(c, inf) ==
               ELSE IF c.wl.cap = "one" THEN FromInt(L) ELSE One
   IN Mul(Mul(Pow(FromInt(c.size), L), capf), Pow(inf.sep.count, L - 1))
 
+\* C08: "depends only on the recipe and the SET OF WORDS SUPPLIED" - the same formula over the specified kept set
+\* (WordListCtor!KeptSpec of the input), whatever list object the constructor handed back
+EntropySpecCountBig(c, inf) ==
+  LET L == c.wl.len
+      capf == IF ~inf.allCap THEN One
+              ELSE IF c.wl.cap = "random" THEN Shl(One, L)
+              ELSE IF c.wl.cap = "one" THEN FromInt(L) ELSE One
+  IN Mul(Mul(Pow(FromInt(Cardinality(inf.keptSpec)), L), capf), Pow(inf.sep.count, L - 1))
+
 \* the number of distinct passwords of an all-capitalisable recipe (differs from EntropyCountBig only when a
 \* caller-written separator function under-reports its own entropy)
 PasswordCountBig(c, inf) ==
@@ -98,7 +107,10 @@ CellWhys(c, inf) ==
     IF c.ent.k # "panic" /\ ~SameFloat(c.ent, c.ent2) THEN "P:C08:entropy-differs-between-calls" ELSE "ok",
     IF c.ent.k \notin {"panic", "nan"} /\ c.wl.len >= 1 /\ c.size >= 1 /\ (inf.sep.generates \/ inf.sep.refused)
        /\ ~EntropyIsLog2(c.ent, EntropyCountBig(c, inf), Tol)
-      THEN "P:C08:entropy-is-not-the-documented-formula" ELSE "ok"
+      THEN "P:C08:entropy-is-not-the-documented-formula" ELSE "ok",
+    IF c.ent.k \notin {"panic", "nan"} /\ c.wl.len >= 1 /\ inf.keptSpec # {} /\ (inf.sep.generates \/ inf.sep.refused)
+       /\ ~EntropyIsLog2(c.ent, EntropySpecCountBig(c, inf), Tol)
+      THEN "P:C08:entropy-is-not-the-formula-over-the-set-of-words-supplied" ELSE "ok"
   >>
 
 \* the same multiset of words and the same recipe, constructed again (permuted, repeated): everything observable must agree
